@@ -157,3 +157,40 @@ def gen_htl_msg(rng, ids, texts):
     for _ in range(nf):
         f += [rng.choice([1, 2, 3]), rng.choice([1, 5]), rng.choice(H_FILES), rng.choice(H_FILES), rng.choice(H_INFOS)]
     return f
+
+
+# ---- suppression-state records (REPORT_SUPPR wire)
+W_IDS = [b"nullPointer", b"zerodiv", b"uninitvar", b"*", b"null*", b"misra-c2012-1.1", b"a_b", b""]
+W_FILES = [b"", b"a.c", b"src/x.h", b"dir/sub/f.cpp", b"C:/x/y.c", b"a:b", b"a:b.c", b"dir:1", b"x", b"*.c", b"a.c:", b"f.c:12"]
+W_SYMS = [b"", b"foo", b"ns::f", b"a b", b"x*"]
+W_COMMENTS = [b"", b"why", b"a;b", b";", b"x;;y", b"see #12", b"// c"]
+W_SERR = [(b"filename is missing", 21), (b"invalid line number", 22), (b"unexpected extra", 23), (b"converting", 24)]
+
+
+def gen_ws(rng):
+    """fields: id file line symbol poly col checked matched comment"""
+    hostile = rng.random() < 0.2
+
+    def h(pool):
+        if hostile and rng.random() < 0.5:
+            return bytes(rng.choices(b"ab:;#/.\n =1", k=rng.randint(0, 6)))
+        return rng.choice(pool)
+    line = rng.choice([-1, -1, -1, 0, 1, 12, 2**31 - 1])
+    return [h(W_IDS), h(W_FILES), line, h(W_SYMS), rng.random() < 0.1, rng.choice([0, 0, 1, 5, -1, 2**31 - 1]),
+            rng.random() < 0.5, rng.random() < 0.5, h(W_COMMENTS)]
+
+
+def gen_wire_garbage(rng):
+    parts = [bytes(rng.choices(b"ab:#/.\n =1-", k=rng.randint(0, 8))) for _ in range(rng.randint(5, 7))]
+    if rng.random() < 0.7:
+        parts[1] = rng.choice([b"0", b"1", b"-1", b"12", b"x", b"", b"+3", b"007", b"99999999999"])
+    return b";".join(parts)
+
+
+def canon_sread(out):
+    if out and out[0] == b"E" and len(out) == 2 and not out[1].isdigit():
+        for pat, code in W_SERR:
+            if pat in out[1]:
+                return [b"E", str(code).encode()]
+        return [b"E", b"?" + out[1]]
+    return out
